@@ -222,11 +222,24 @@ func c15Range(multi bool) c15AbsRange {
 // c15NewUpstreamSeq: an upstream whose behaviour is m1 until *phase becomes 1 and m2 afterwards (HTTP-level modes only),
 // and whose fault applies to one slice of a range query only when sliceFault >= 0.
 func c15NewUpstreamSeq(ep, ep2 string, idx int, m1, m2 c15Mode, phase *atomic.Int32, sliceFault int) *fakeUpstream {
-	if m1.Transport != "" || m2.Transport != "" {
+	// refused / reset are socket-level fakes and cannot change; a timeout is a handler that never answers, so an upstream
+	// can time out during the first call and answer during the second (or the other way round)
+	socketLevel := func(m c15Mode) bool { return m.Transport == "refused" || m.Transport == "reset" }
+	modeHandler := func(e string, m c15Mode) http.HandlerFunc {
+		if m.Transport == "timeout" {
+			return sleepingHandler(15 * time.Second)
+		}
+		return c15Handler(e, idx, m)
+	}
+	if m1.Transport == "refused" && !socketLevel(m2) {
+		// down (connection refused) during the first call, back on the same address for the second
+		return newRefusedThenHTTPUpstream(modeHandler(ep2, m2))
+	}
+	if socketLevel(m1) || socketLevel(m2) {
 		return c15NewUpstream(ep, idx, m1)
 	}
 	healthy := c15Handler(ep, idx, c15Listed[0])
-	h1, h2 := c15Handler(ep, idx, m1), c15Handler(ep2, idx, m2)
+	h1, h2 := modeHandler(ep, m1), modeHandler(ep2, m2)
 	return newHTTPUpstream(func(w http.ResponseWriter, r *http.Request) {
 		if sliceFault >= 0 {
 			_ = r.ParseForm()
@@ -388,9 +401,29 @@ func c15BuildGroup(ep string, modes []c15Mode, required bool, ups []*fakeUpstrea
 	return fg, ups, cts, uris, cleanup
 }
 
-func c15Spurious(cts []*countingTransport, modes []c15Mode) string {
+// c15CheckRun: run B (the online check on a second fresh group over the same fake upstreams) is possible unless a fault
+// is tied to one slice of the direct call's window, or an upstream came back from "refused" (it cannot refuse again)
+func c15CheckRun(c *c15Case) bool {
+	if c.SliceFault != nil {
+		return false
+	}
+	for i, m := range c.Modes2 {
+		if c.Modes[i].Transport == "refused" && m.Transport != "refused" {
+			return false
+		}
+	}
+	return true
+}
+
+func c15Spurious(cts []*countingTransport, modes []c15Mode, modes2 ...[]c15Mode) string {
 	for i, c := range cts {
-		if c != nil && c.timeouts.Load() > 0 && modes[i].Transport != "timeout" {
+		may := modes[i].Transport == "timeout"
+		for _, m2 := range modes2 {
+			if i < len(m2) && m2[i].Transport == "timeout" {
+				may = true
+			}
+		}
+		if c != nil && c.timeouts.Load() > 0 && !may {
 			return fmt.Sprintf("upstream %d (%s) timed out", i, modes[i].Name)
 		}
 	}
@@ -527,13 +560,20 @@ func c15RunDirect(c *c15Case, phase *atomic.Int32, shared []*fakeUpstream, obs *
 		clip(obs.Server)
 	}
 	second := true
-	for _, m := range modes {
-		if m.Transport == "timeout" {
-			second = false
+	if c.Modes2 == nil {
+		for _, m := range modes {
+			if m.Transport == "timeout" {
+				second = false
+			}
 		}
 	}
 	if second {
 		phase.Store(1)
+		for _, u := range ups {
+			if u.comeBack != nil {
+				u.comeBack()
+			}
+		}
 		if c.Endpoint2 != "" {
 			callEp = c.Endpoint2
 		}
@@ -553,7 +593,7 @@ func c15RunDirect(c *c15Case, phase *atomic.Int32, shared []*fakeUpstream, obs *
 		}
 		obs.Second = sc
 	}
-	obs.Spurious = c15Spurious(cts, modes)
+	obs.Spurious = c15Spurious(cts, modes, c.Modes2)
 }
 
 const c15Rules = `
@@ -643,7 +683,7 @@ func c15Run(c *c15Case) {
 		ups := c15Upstreams(c, &phase)
 		c15RunDirect(c, &phase, ups, &c.Obs) // server-side counts are read here, before run B
 		phase.Store(0)
-		if c.SliceFault == nil { // the checks use their own (relative) windows: a per-slice fault has no meaning for them
+		if c15CheckRun(c) { // the checks use their own (relative) windows: a per-slice fault has no meaning for them
 			c15RunCheck(c.Endpoint, c.Modes, c.Required, ups, &c.Obs)
 		}
 		for _, u := range ups {
@@ -873,7 +913,7 @@ func c15Oracle(c *c15Case) []string {
 			if c.Required {
 				want = "Bug"
 			}
-			if c.SliceFault == nil && (len(o.Problems) != 1 || len(unable) != 1 || unable[0] != want) {
+			if c15CheckRun(c) && (len(o.Problems) != 1 || len(unable) != 1 || unable[0] != want) {
 				bad = append(bad, fmt.Sprintf("every upstream is unavailable (required=%v): expected exactly one `unable to run checks` problem of severity %s, got %v", c.Required, want, o.Problems))
 			}
 			if !o.Unavailable {
@@ -1031,7 +1071,7 @@ func c15CoqCase(c *c15Case) string {
 	return fmt.Sprintf("{| c_id := %s; c_ep := %s; c_required := %s; c_ups := %s; c_resps2 := %s; c_ep2 := %s; c_check_run := %s; "+
 		"o_ok := %s; o_answer_idx := %s; o_marker := %s; o_err_idx := %s; o_err_kind := %s; o_unavailable := %s; o_strict := %s; "+
 		"o_client := %s; o_server := %s; o_problems := %s; o_client_check := %s; o_second := %s |}",
-		coqN(c.ID), c15CoqEndpoint(c.Endpoint), coqBool(c.Required), coqList(ups), coqList(r2), c15CoqEndpoint(ep2), coqBool(c.SliceFault == nil),
+		coqN(c.ID), c15CoqEndpoint(c.Endpoint), coqBool(c.Required), coqList(ups), coqList(r2), c15CoqEndpoint(ep2), coqBool(c15CheckRun(c)),
 		coqBool(o.OK), coqZ(int64(o.AnswerIdx)), coqStr(o.Marker), coqZ(int64(o.ErrIdx)), coqStr(o.ErrKind), coqBool(o.Unavailable), coqBool(o.Strict),
 		c15CoqInts(o.Client), c15CoqInts(o.Server), coqStrList(o.Problems), c15CoqInts(o.ClientB), c15CoqSecond(o.Second))
 }
@@ -1186,6 +1226,32 @@ func c15Enumerate(tier string, r *rand.Rand, nExtra int) []c15Case {
 			}
 		}
 	}
+	// recovery after a TIMEOUT (a handler that never answers, then answers): the remembered outcome of a timed-out request
+	// must not keep the recovered upstream from being asked again — every endpoint, every position
+	tmo := L[2]
+	for _, ep := range c15Endpoints {
+		seq := func(m1, m2 []c15Mode) {
+			add(ep, req(), m1...)
+			cases[len(cases)-1].Modes2 = append([]c15Mode{}, m2...)
+		}
+		seq([]c15Mode{tmo}, []c15Mode{L[0]})
+		seq([]c15Mode{tmo, L[0]}, []c15Mode{L[0], L[0]})
+		seq([]c15Mode{tmo, tmo}, []c15Mode{L[0], L[0]})
+		seq([]c15Mode{L[3], tmo, L[0]}, []c15Mode{L[3], L[0], L[0]})
+		seq([]c15Mode{tmo, L[0]}, []c15Mode{L[5], L[0]})
+		seq([]c15Mode{L[0], L[0]}, []c15Mode{tmo, L[0]})
+		// … and after CONNECTION REFUSED (the port starts listening for the second call)
+		seq([]c15Mode{L[1]}, []c15Mode{L[0]})
+		seq([]c15Mode{L[1], L[0]}, []c15Mode{L[0], L[0]})
+		seq([]c15Mode{L[1], L[1]}, []c15Mode{L[0], L[0]})
+		seq([]c15Mode{L[3], L[1], L[0]}, []c15Mode{L[3], L[0], L[0]})
+		seq([]c15Mode{L[1], L[0]}, []c15Mode{L[6], L[0]})
+		if tier == "thorough" {
+			seq([]c15Mode{tmo, L[3]}, []c15Mode{L[3], L[0]})
+			seq([]c15Mode{tmo}, []c15Mode{tmo})
+			seq([]c15Mode{L[1], tmo, L[0]}, []c15Mode{L[1], L[0], L[0]})
+		}
+	}
 	// cross-API sequences: the first call asks one API, the second call another API of the same group.  Whatever the first
 	// API answered (404 = "this API is not supported here", errors, a cached answer) must not change how the second API
 	// is served: every ordered pair of the three status/metadata APIs, plus pairs with the query APIs
@@ -1278,7 +1344,7 @@ func c15SearchCases(r *rand.Rand, n int) []c15Case {
 		if r.Intn(3) == 0 {
 			m2 := append([]c15Mode{}, ms...)
 			for j := range m2 {
-				if m2[j].Transport == "" && r.Intn(2) == 0 {
+				if (m2[j].Transport == "" || (m2[j].Transport == "timeout" && timeouts <= 1)) && r.Intn(2) == 0 {
 					for {
 						m2[j] = L[r.Intn(len(L))]
 						if m2[j].Transport == "" {
